@@ -111,3 +111,11 @@ Theorem C10_translator_flags :
   COMPLETE_REGEX_BODY_VIA_STRIP = true /\ DISPATCH_V0_VERSION = V0_VERSION_BYTE.
 Proof. exact translator_flags. Qed.
 Print Assumptions C10_translator_flags.
+
+(* F25, fixed in /repo (`fix: deserialize does not allocate what a corrupt length prefix
+   announces`): the payload is decoded with the slice-bounded rmp-serde entry point, which checks
+   every announced length against the remaining input.  (That this bounds allocation is observed
+   by the fault enumeration, not proved.) *)
+Theorem C10_decoder_entry_bounded : V0_DECODER_ENTRY = "from_slice"%string.
+Proof. exact decoder_entry_bounded. Qed.
+Print Assumptions C10_decoder_entry_bounded.
